@@ -37,6 +37,12 @@ CHECKS = {
  "C09": (True, "E1", "exploration", E1 + "; symbolic block samples, exact rational windows",
   "Every (size<=8, hop<=size, 0..6 blocks, window kind x values, normalise, size given/detected, hop given/defaulted, block container) (thorough size<=10, 8 blocks) is run through the real overlap_add.list on symbolic blocks and compared as linear forms with the windowed hop-shifted sum and the stated gain; blocking->overlap-add and identity-STFT reconstruction on every fully covered sample for all hop | size and the Bartlett window; 77k (thorough 203k) STFT wrapper configurations (sizes, hops, lengths, user function, transform pair, before/after, analysis window kind, ola strategy / None / recording fake, ola_wnd, ola_normalize, four calling styles) with recording stage functions: stage order, window-before-func, sizes passed, exactly size/hop/ola_-stripped options reaching the overlap-add.",
   "Bounds on size/blocks; hop <= size; pure-Python list strategy and stages only (numpy absent); error-raising behaviour is not part of the property and not demanded."),
+ "C10": (True, "E1", "exploration", E1 + "; exact rational residuals of the normal equations",
+  "All reflection vectors over {-1/2,-1/3,0,1/3,1/2,3/4}^p, p<=3 (thorough 4) x r0 x orders 0..p+2 and all data blocks of length <=5 (thorough 6) over {-1,0,1,2} x all orders are given to the real levinson_durbin / lpc.kautocor / lpc.kcovar with exact Q samples; the Yule-Walker / covariance residuals must be exactly zero, the error attribute must equal sum a_j r_j = r0*prod(1-k^2) = energy of the prediction residual, ParCorError iff a prediction error is zero; acorr/lag_matrix/toeplitz against their plain sums for every max_lag.",
+  "Length/order bounds; kcovar's documented refusals are counted not failed; numpy strategies not exercised."),
+ "C11": (True, "E1", "exploration", E1,
+  "All reflection vectors over {+-1/2,+-1/3,+-2,-3/2,0,+-1} with non-zero last entry (length <=3, thorough 4) x gains x three construction routes: parcor must return them last first (and raise ParCorError exactly at the first |k|=1), step-up of the result rebuilds the filter, levinson error = r0*prod(1-k^2); all multisets of 12 root factors (real roots 0,+-1/2,3/4,+-1,+-2 and conjugate pairs inside/on/outside the circle) up to degree 4 x 4 leading coefficients x 2 numerators for parcor_stable, whose answer is known by construction.",
+  "Degree <= 4; exact rational coefficients."),
 }
 
 NOT_YET = "check not built yet in this session; see DESIGN.md section 4 for the planned model-checking harness"
